@@ -130,14 +130,14 @@ Definition whole_tree (c : cfg) : cfg := {|
   c_exts := c_exts c; c_required := c_required c; c_statreq := c_statreq c; c_extract := c_extract c; c_pat := c_pat c;
   c_skip_list := c_skip_list c; c_re := c_re c; c_glob := c_glob c; c_gitignore := c_gitignore c;
   c_ignore_subdirs := false; c_paths := []; c_symlinks := c_symlinks c;
-  c_max_inodes := c_max_inodes c; c_max_size := c_max_size c; c_fatal := c_fatal c; c_cancel := c_cancel c |}.
+  c_max_inodes := c_max_inodes c; c_max_size := c_max_size c; c_fatal := c_fatal c; c_abs := c_abs c; c_cancel := c_cancel c |}.
 
 (* the same configuration with other requested paths *)
 Definition set_paths (c : cfg) (ps : list path) : cfg := {|
   c_exts := c_exts c; c_required := c_required c; c_statreq := c_statreq c; c_extract := c_extract c; c_pat := c_pat c;
   c_skip_list := c_skip_list c; c_re := c_re c; c_glob := c_glob c; c_gitignore := c_gitignore c;
   c_ignore_subdirs := c_ignore_subdirs c; c_paths := ps; c_symlinks := c_symlinks c;
-  c_max_inodes := c_max_inodes c; c_max_size := c_max_size c; c_fatal := c_fatal c; c_cancel := c_cancel c |}.
+  c_max_inodes := c_max_inodes c; c_max_size := c_max_size c; c_fatal := c_fatal c; c_abs := c_abs c; c_cancel := c_cancel c |}.
 
 (* clean relative paths: "." alone, or segments none of which is "." *)
 Definition canonical_path (p : path) : bool :=
@@ -148,7 +148,8 @@ Definition pkgs_of (x : xres) : list pkg := match x with XRes pk _ => pk | XPani
 Definition errs_flag (x : xres) : bool := match x with XRes _ err => err | XPanic => false end.
 
 Definition inventory_of_calls (c : cfg) (l : list (ext * path)) : list tpkg :=
-  flat_map (fun ep => map (fun x => (fst ep, x)) (pkgs_of (c_extract c (fst ep) (snd ep)))) l.
+  (* with StoreAbsolutePath every location is the root-joined path, exactly once *)
+  flat_map (fun ep => map (fun x => (fst ep, x)) (map (abs_pkg c) (pkgs_of (c_extract c (fst ep) (snd ep))))) l.
 
 (* plugin status as the property words it: failed / partially succeeded when some call of e erred,
    partial iff some call of e returned packages *)
